@@ -1367,7 +1367,16 @@ impl Real {
                             "noshard".into()
                         } else {
                             let finished = self.applied.contains(&(sh, tx)) || self.discarded.contains(&(sh, tx));
+                            let was_prepared = self.parts[sh].get_awaiting_decision().contains(&self.txs[tx].real);
                             let r = self.parts[sh].commit(self.txs[tx].real);
+                            // a participant that voted YES and still holds the prepared transaction must APPLY it when the
+                            // coordinator's (only) decision is commit: refusing is a YES voter discarding a committed transaction
+                            if was_prepared && !r.success && self.decided.contains(&(tx, true)) && !self.decided.contains(&(tx, false)) {
+                                self.viol.push(Violation {
+                                    class: "tensor_chain.distributed_tx.participant/commit_of_prepared_tx_refused",
+                                    what: format!("shard {sh} held tx {tx} prepared (voted YES), the coordinator decided commit, and participant.commit answered success=false: the shard discards a committed transaction"),
+                                });
+                            }
                             if finished {
                                 self.hits.push(format!("late.commit_finished.{}", if r.success { "reapplied" } else { "absent" }));
                             }
